@@ -163,6 +163,8 @@ pub fn run_seed(base: u64, property: &str, campaign: &str, idx: u64) -> u64 {
 
 /// set by the determinism pre-check when the tree under test answers one case in two ways
 pub static SUT_NONDETERMINISTIC: AtomicBool = AtomicBool::new(false);
+/// things that must never happen inside the harness itself (a simulated device pipe that is full)
+pub static HARNESS_FAULTS: AtomicU64 = AtomicU64::new(0);
 
 pub fn run_check(spec: &CheckSpec, base_seed: u64, thorough: bool, threads: usize, runs_override: Option<u64>, write_evidence: bool) -> CheckReport {
   let t0 = Instant::now();
@@ -253,6 +255,7 @@ pub fn run_check(spec: &CheckSpec, base_seed: u64, thorough: bool, threads: usiz
       }
     });
     if count_only { println!("[count-only] campaign {}: {} failing runs of {}", cname, failing_runs.load(Ordering::Relaxed), n); }
+    if HARNESS_FAULTS.load(Ordering::Relaxed) > 0 { eprintln!("harness error: campaign {}: {} write(s) of simulated device bytes did not fit into the pipe", cname, HARNESS_FAULTS.load(Ordering::Relaxed)); return CheckReport { violations: 0, exit: 2 }; }
     let herrs = harness_errors.into_inner().unwrap();
     if !herrs.is_empty() { for e in &herrs { eprintln!("harness error: {}", e); } return CheckReport { violations: 0, exit: 2 }; }
     let (acc, mut samp, mut fails, kn, nt_runs, runs_done, mut panics, evals_done) = merged.into_inner().unwrap();
